@@ -132,20 +132,28 @@ def build(sig, kind, annotated=False):
 
 def base_call_text(sigb):
   """How the subclass __init__ calls super().__init__: every positional parameter of the base by position, required keyword-only ones by keyword."""
+  if sigb is None: return ''
   parts = ['0'] * len(sigb['pos']) + ['%s=0' % n for n, d in sigb['kwonly'] if d is None]
   return ', '.join(parts)
 
-def sub_source(sigb, sigd):
-  return ('class D(B):\n  def __init__(%s):\n    super().__init__(%s)\n'
+def base_source(sigb):
+  return 'class C:\n  pass\n' if sigb is None else cls_source(sigb)
+
+def sub_source(sigb, sigd, sub_init='own-super'):
+  """sub_init: 'none' (the subclass has no __init__ of its own), 'own-super' (its own __init__ calls super().__init__),
+  'own-nosuper' (its own __init__ does not)."""
+  if sub_init == 'none':
+    return 'class D(B):\n  pass\n'
+  return ('class D(B):\n  def __init__(%s):\n%s'
           '    self.rec = {k_: v_ for k_, v_ in locals().items() if k_ not in ("self", "__class__")}\n'
-          % (', '.join(['self'] + param_text(sigd, False)), base_call_text(sigb)))
+          % (', '.join(['self'] + param_text(sigd, False)), '    super().__init__(%s)\n' % base_call_text(sigb) if sub_init == 'own-super' else ''))
 
 _PAIRS = {}
-def build_pair(pair_id, sigb, sigd, order):
-  """A symbolized base class and a subclass of the wrapper with its own __init__ of another shape (pyglove symbolizes it
-  automatically), next to the same pair left plain. order: 'sub-first' (the subclass is used before the base ever is),
-  'base-first' (the base is instantiated first), 'base-rebound-first' (instantiated and rebound first).
-  Returns (plain subclass, symbolic subclass)."""
+def build_pair(pair_id, sigb, sigd, order, sub_init='own-super'):
+  """A symbolized base class (with an __init__ of shape sigb, or without one when sigb is None) and a subclass of the wrapper
+  with or without its own __init__ (pyglove symbolizes it automatically), next to the same pair left plain.
+  order: 'sub-first' (the subclass is used before the base ever is), 'base-first' (the base is instantiated first),
+  'base-rebound-first' (instantiated and rebound first). Returns (plain subclass, symbolic subclass)."""
   import pyglove as pg, types
   if pair_id not in _PAIRS:
     out = []
@@ -153,25 +161,29 @@ def build_pair(pair_id, sigb, sigd, order):
       mod = types.ModuleType('c18_pair_%d_%d' % (len(_PAIRS), int(symbolic)))
       sys.modules[mod.__name__] = mod
       ns = mod.__dict__
-      exec(cls_source(sigb), ns)
+      exec(base_source(sigb), ns)
       B = ns['C']
       if symbolic:
         B = pg.symbolize(B)
       ns['B'] = B
       if order != 'sub-first':
-        b = B(*[0] * len(sigb['pos']), **{n: 0 for n, d in sigb['kwonly'] if d is None})
-        if order == 'base-rebound-first' and symbolic:
+        b = B() if sigb is None else B(*[0] * len(sigb['pos']), **{n: 0 for n, d in sigb['kwonly'] if d is None})
+        if order == 'base-rebound-first' and symbolic and sigb is not None:
           names = [n for n, _ in sigb['pos'] + sigb['kwonly']]
           if names: b.rebind({names[0]: 5})
           b.clone(deep=True)
-      exec(sub_source(sigb, sigd), ns)
+      exec(sub_source(sigb, sigd, sub_init), ns)
       out.append(ns['D'])
     _PAIRS[pair_id] = tuple(out)
   return _PAIRS[pair_id]
 
+def rec_of(obj):
+  """What the user __init__ recorded ({} when no class of the hierarchy has an __init__)."""
+  return getattr(obj, 'rec', {})
+
 def class_under_test(case):
   if case['kind'] == 'subclass':
-    return build_pair(case['pair'], case['base_sig'], case['sig'], case['order'])
+    return build_pair(case['pair'], case['base_sig'], case['sig'], case['order'], case.get('sub_init', 'own-super'))
   return build(case['sig'], 'class', case.get('annotated', False))
 
 # ---- tree encodings (must print exactly what Model/Binding.v prints) --------------------------------
@@ -195,6 +207,8 @@ def err_kind(e):
 
 def enc_bound(sig, d):
   """d = what the original callable saw (dict of its locals)."""
+  if any(n not in d for n, _ in sig['pos'] + sig['kwonly']) or (sig['varargs'] and sig['varargs'] not in d) or (sig['varkw'] and sig['varkw'] not in d):
+    return [3]          # the __init__ with these parameters never ran on the object
   named = [[NAMES[n], enc_val(d[n])] for n, _ in sig['pos'] + sig['kwonly']]
   var = [enc_val(v) for v in d[sig['varargs']]] if sig['varargs'] else []
   kw = enc_kvs(d[sig['varkw']].items()) if sig['varkw'] else []
@@ -326,14 +340,14 @@ def run_class_impl(case):
   if x.sym_partial:
     out = [2]
   else:
-    out = enc_bound(sig, x.rec)
+    out = enc_bound(sig, rec_of(x))
   return [[0, attrs, vattr], out], x
 
 def direct(orig, sig, cpos, ckw, is_class=False):
   """The original callable called directly: bound tree or (1 kind)."""
   try:
     r = orig(*cpos, **dict(ckw))
-    return enc_bound(sig, r.rec if is_class else r)
+    return enc_bound(sig, rec_of(r) if is_class else r)
   except Exception as e:
     return [1, err_kind(e)]
 
@@ -460,7 +474,7 @@ def features(case, with_call=True):
 
 def classify_hit(case, got, exp, tag=''):
   f = features(case)
-  d = ('returns-where-direct-raises' if got[0] == 0 and exp[0] == 1 else 'raises-where-direct-returns' if got[0] == 1 and exp[0] == 0
+  d = ('own-init-never-ran' if got[0] == 3 else 'returns-where-direct-raises' if got[0] == 0 and exp[0] == 1 else 'raises-where-direct-returns' if got[0] == 1 and exp[0] == 0
        else 'different-arguments' if got[0] == 0 else 'different-error-class')
   return 'C18/call/%s/%s/%s' % ((case['kind'] if case['kind'] in ('class', 'subclass') else 'functor') + tag, d, f[0] if f else 'plain')
 
@@ -571,10 +585,16 @@ def gen_class_case(rng, sig):
   add_routes(rng, c, notify_off=False)       # without notification the user __init__ is not re-run (documented), nothing to compare
   return c
 
-def gen_subclass_case(rng, pair, sigb, sigd, order):
+def gen_subclass_case(rng, pair, sigb, sigd, order, sub_init='own-super'):
   c = gen_class_case(rng, sigd)
-  c.update(kind='subclass', pair=pair, base_sig=sigb, order=order, post=rng.choice([0, 0, 1, 1, 2]), deep=rng.random() < .5)
+  c.update(kind='subclass', pair=pair, base_sig=sigb, order=order, sub_init=sub_init, post=rng.choice([0, 0, 1, 1, 2]), deep=rng.random() < .5)
   return c
+
+EMPTY_SIG = dict(pos=[], varargs=None, kwonly=[], varkw=None)
+def shuffled_names(rng, sig):
+  """The same shape with the positional names in another order (c, a, b ...): a subclass whose positional parameters are named / ordered differently."""
+  names = list(POS_NAMES); rng.shuffle(names)
+  return dict(sig, pos=[(names[i], d) for i, (_, d) in enumerate(sig['pos'])])
 
 def grid_supplies(sig):
   """A finite grid of ways to supply arguments: 0..n+1 positional values x at most one keyword among the parameters and one unknown name."""
@@ -728,6 +748,7 @@ def names_of(codes):
 def show(b):
   if b[0] == 1: return {1: 'TypeError', 2: 'KeyError', 3: 'another exception'}[b[1]]
   if b[0] == 2: return 'a partial object'
+  if b[0] == 3: return 'an object whose own __init__ never ran'
   return 'f(%s)' % ', '.join(['%s=%s' % (CODE[k], v) for k, v in b[1]] + ['*%s' % b[2]] + ['**{%s}' % ', '.join('%s: %s' % (CODE[k], v) for k, v in b[3])])
 
 def fmt_call(c):
@@ -739,7 +760,9 @@ def describe(case, with_call=True):
   if case['kind'] == 'subclassed':
     src = 'class S(pg.Functor) with fields (%s) and _call' % ', '.join(n + ('' if d is None else '=%d' % d) for n, d in case['sig']['pos'])
   if case['kind'] == 'subclass':
-    src = 'subclass %s calling super().__init__(%s) of symbolized base %s, %s' % (src, base_call_text(case['base_sig']), cls_source(case['base_sig']).split('\n')[1].strip(), case['order'])
+    si = case.get('sub_init', 'own-super')
+    base = 'without __init__' if case['base_sig'] is None else cls_source(case['base_sig']).split('\n')[1].strip()
+    src = 'subclass %s of symbolized base %s, %s' % ('without __init__' if si == 'none' else src + (' calling super().__init__(%s)' % base_call_text(case['base_sig']) if si == 'own-super' else ' not calling super'), base, case['order'])
   s = '%s [%s] ctor%s' % (src, case['kind'], fmt_call(case['ctor']))
   if not is_cls:
     s += ' override_args=%s ignore_extra_args=%s' % (case['ov'], case['ie'])
@@ -773,6 +796,7 @@ def eff_tree(eff):
 def nontrivial(case):
   routes = (1 if case['ctor'][0] or case['ctor'][1] else 0) + (1 if case['lates'] else 0)
   if case['kind'] == 'subclass': routes += 1
+  if case['kind'] == 'subclass' and case.get('sub_init') != 'none' and case.get('base_sig') is None: routes += 1
   if case['kind'] not in ('class', 'subclass'):
     routes += 1 if case['call'][0] or case['call'][1] else 0
   return routes >= 2
@@ -885,9 +909,14 @@ def run(ctx):
     sigb = rng.choice(small) if rng.random() < .8 else random_sig(rng, 2, 1)
     sigd = rng.choice(sigs2) if rng.random() < .5 else random_sig(rng, 3, 2, posonly=True)
     order = rng.choice(['sub-first', 'base-first', 'base-first', 'base-rebound-first'])
+    if rng.random() < .4: sigd = shuffled_names(rng, sigd)
+    if rng.random() < .3: sigb = None                                   # the symbolized base class has no __init__ of its own
+    sub_init = rng.choice(['own-super', 'own-super', 'own-nosuper', 'none'])
+    eff = sigd if sub_init != 'none' else (sigb if sigb is not None else EMPTY_SIG)   # the signature a construction is read against
     for _ in range(4):
-      ccases.append(gen_subclass_case(rng, 'p%d' % i, sigb, sigd, order))
+      ccases.append(gen_subclass_case(rng, 'p%d' % i, sigb, eff, order, sub_init))
     ctx.hist('inheritance_order', order)
+    ctx.hist('inheritance_shape', 'base %s __init__, subclass %s' % ('without' if sigb is None else 'with', {'none': 'without __init__', 'own-super': 'with __init__ calling super', 'own-nosuper': 'with __init__ not calling super'}[sub_init]))
   # (H) subclassed functors: pg.Functor subclasses with fields and _call (call-time arguments override the members _call reads)
   for _ in range(ctx.scale(600, 12000)):
     fcases.append(gen_subclassed_case(rng))
